@@ -61,7 +61,8 @@ CheckCovObs(id, c) ==
                  /\ Verdict(id, "wellformed:" \o WFClause(rs[i].o), WellFormed(rs[i].o))
                  /\ Verdict(id, "value", REq(rs[i].o.value, c.means[i]))
                  /\ Verdict(id, "cov", Len(rs[i].o.cov) = 1 /\ rs[i].o.cov[1].name = c.name /\ rs[i].o.cov[1].cov = c.cov
-                                        /\ rs[i].o.cov[1].grad = [j \in DOMAIN c.means |-> IF j = i THEN "1" ELSE "0"])
+                                        \* the gradient handed in with the request, the i-th unit vector without one
+                                        /\ rs[i].o.cov[1].grad = IF c.grad # <<>> THEN c.grad ELSE [j \in DOMAIN c.means |-> IF j = i THEN "1" ELSE "0"])
                  /\ Verdict(id, "no-chains", rs[i].o.chains = <<>> /\ rs[i].o.N = 0)
 
 \* ---- merge / correlate / reweight -----------------------------------------------------------------
